@@ -16,6 +16,7 @@ const (
 	SF64   Sort = "F64"
 	SSlice Sort = "Slice"
 	SIface Sort = "Iface"
+	SBox   Sort = "Box" // a local fixed-size array that has been sliced: the term is the identity of its heap array
 )
 
 func ArrSort(elem Sort) Sort  { return Sort("(Array Int " + string(elem) + ")") }
